@@ -4,3 +4,9 @@ From TsrunV Require Generated.FactsC17 Expected.FactsC17.
 
 Lemma ffi_exports_agree : Generated.FactsC17.ffi_exports = Expected.FactsC17.ffi_exports.
 Proof. reflexivity. Qed.
+
+Lemma ffi_unchecked_pointer_params_agree : Generated.FactsC17.ffi_unchecked_pointer_params = Expected.FactsC17.ffi_unchecked_pointer_params.
+Proof. reflexivity. Qed.
+
+Lemma ffi_pointer_param_count_agree : Generated.FactsC17.ffi_pointer_param_count = Expected.FactsC17.ffi_pointer_param_count.
+Proof. reflexivity. Qed.
